@@ -555,6 +555,30 @@ def error_cell_order(run, r2, f, aug):
             [a for a, _ in appended], {k: astq.aff_show(v) for k, v in numbering.items()}), where(appended[0][1]) if appended else where(body))
 
 
+def text_rules(run, rule, f):
+    """formatted pieces of the emitted text are bounded by their own buffer: every snprintf(buf, n, ...) has n = sizeof(buf) of the
+    same buffer (a smaller bound silently truncates the declaration for large registries: the text no longer compiles)"""
+    where = lambda n: (f["file"], n["l"] if isinstance(n, dict) else f["line"])
+    calls = [n for n in astq.walk(f["body"]) if n.get("k") == "CallExpr" and re.search(r"(^|::)snprintf$", n.get("callee") or "")]
+    for n in calls:
+        args = n["c"][1:]
+        buf = astq.strip(args[0])
+        bdid = buf["ref"]["did"] if buf is not None and buf.get("k") == "DeclRefExpr" else None
+        sz = [x for x in astq.walk(args[1]) if x.get("k") == "UnaryExprOrTypeTraitExpr"]
+        sdid = None
+        if sz:
+            inner = [x["ref"]["did"] for x in astq.walk(sz[0]) if x.get("k") == "DeclRefExpr"]
+            sdid = inner[0] if inner else None
+        if bdid is None or not sz:
+            run.broken.append("encode_dispatch_data: snprintf with a destination / bound this rule does not classify (line %s)" % n["l"])
+            continue
+        ok = sdid == bdid
+        run.instance(rule, "encode_dispatch_data: a formatted piece of text is bounded by the size of its own buffer", where(n), ok=ok)
+        if not ok:
+            run.violation(rule, "generator::encode_dispatch_data|snprintf-bound", "snprintf into `%s` is bounded by sizeof of another object (`%s`): for registries whose numbers need more characters the declaration is cut and the emitted text does not compile" % (
+                buf["ref"]["name"], astq.text(sz[0])[:60]), where(n))
+
+
 def scratch_rules(run, rule, f):
     """decoder scratch arrays (alloca): an array indexed by a method's position in the catalog has one entry per method, an array
     indexed by a multi-method's rank one per multi-method; an extent counted over fewer elements than the index ranges over is
@@ -662,6 +686,9 @@ def check(run):
         run.units.append({"unit": "c13_ast", "ndebug": nd, "encoders": len(encs), "decoders": len(decs)})
         for f in encs:
             encoder_rules(run, r1, r2, f)
+            from . import c12
+            c12.encoder_layout_rule(run, r2, f)
+            text_rules(run, r2, f)
         for f in decs:
             decoder_rules(run, r1, r2, f, augs[0])
             scratch_rules(run, r1, f)
